@@ -138,7 +138,9 @@ def _case(draw, tier):
     if flat_second and any(len(set(r["kids"])) != len(r["kids"]) for r in recs):
         # how a collection that lists one element twice is counted is not the subject here (C16)
         flat_second = False
-    return {"abandoned_stays_open": bool(abandon_first) and chance(draw, 1, 3), "flat_second": flat_second, "abandon_first": abandon_first, "ents": recs, "doms": doms, "vars": vars_, "tree": root, "dom_kind": "list", "nv": nv, "extra": extra,
+    # the conclusions are about the first variable only, the conditions about both: T(x) for every (x, y) that fires
+    first_only = nv == 2 and extra is None and not flat_second and chance(draw, 1, 5)
+    return {"conclude_on_first_only": first_only, "abandoned_stays_open": bool(abandon_first) and chance(draw, 1, 3), "flat_second": flat_second, "abandon_first": abandon_first, "ents": recs, "doms": doms, "vars": vars_, "tree": root, "dom_kind": "list", "nv": nv, "extra": extra,
             "alt_first": draw(st.booleans()), "sibling_alts": draw(st.booleans()),
             "quant": draw(st.sampled_from(["an", "infer"])), "split_base": draw(st.booleans())}
 
@@ -239,7 +241,7 @@ def _emit(node, views, V, case, is_root=False):
     if node.get("extra"):
         Add(views, tag(x=V[0], y=V[case["extra"]]))
     else:
-        Add(views, tag(x=V[0], y=V[1]) if nv == 2 else tag(x=V[0]))
+        Add(views, tag(x=V[0], y=V[1]) if (nv == 2 and not case.get("conclude_on_first_only")) else tag(x=V[0]))
 
     def do_ref():
         if node["ref"] is not None:
@@ -347,6 +349,7 @@ def check(case) -> Outcome:
             out += r if r else [(node["id"], e)]
         return out
 
+    first_only = bool(case.get("conclude_on_first_only"))
     if case.get("flat_second"):
         combos = []
         for x_ in doms[0]:
@@ -360,10 +363,10 @@ def check(case) -> Outcome:
     for combo in combos:
         env = dict(enumerate(combo))
         for t, e in fire_rows(case["tree"], env):
-            y = e[extra] if nodes[t].get("extra") else (combo[1] if nv == 2 else None)
+            y = e[extra] if nodes[t].get("extra") else (combo[1] if (nv == 2 and not first_only) else None)
             expected[(f"Tag{t}",) + ident((combo[0], y))] += 1
             tags_fired.add(t)
-    if uses_extra or case.get("flat_second"):
+    if uses_extra or case.get("flat_second") or first_only:
         # how often an identical conclusion is repeated for values of a variable it does not use (or for an element that a
         # collection lists twice) is not asserted
         expected = Counter(set(expected))
@@ -391,6 +394,8 @@ def check(case) -> Outcome:
         feats.append("branch_joins_extra_variable")
         if case.get("abandon_first"):
             feats.append("abandoned_first_and_branch_joins_extra_variable")      # KF-55
+    if first_only:
+        feats.append("conclusions_about_the_first_variable_only")
     if case.get("abandoned_stays_open"):
         feats.append("abandoned_iterator_stays_open")
     if case.get("abandon_first"):
@@ -420,7 +425,7 @@ def check(case) -> Outcome:
                     return fail("not_an_instance", f"caching={caching}: result {o!r} is not a conclusion instance",
                                 nontrivial=nontrivial, classes=classes, features=feats)
                 got[(type(o).__name__,) + ident((o.x, o.y))] += 1
-            if uses_extra or case.get("flat_second"):
+            if uses_extra or case.get("flat_second") or first_only:
                 got = Counter(set(got))
             if got != expected:
                 missing, extra_ = expected - got, got - expected
